@@ -1,210 +1,33 @@
-(* C02 / C09 — six- and seven-card ranking is the best five-card sub-hand; more cards never weaken a
-   hand. Built on Proofs/TableFacts.v (the loop over a well-formed table) plus COMPLETENESS of the
-   regenerated slot tables. General proofs: no enumeration of hands. *)
-From Coq Require Import Sorting.Permutation Sorting.Sorted.
-From CKC Require Import Base.Prelude Base.Reflect Base.SortN Base.Combs Spec.Layout Spec.Poker.
+(* C02 — six- and seven-card ranking is the best five-card sub-hand under the rules of poker:
+   the generic table lemmas (Proofs/GenericTable.v) at [val := value5], with complete slot tables. *)
+From Coq Require Import Sorting.Permutation.
+From CKC Require Import Base.Prelude Base.Reflect Base.Combs Spec.Layout Spec.Poker.
 From CKC Require Import Model.Card Model.Hands Model.Five Model.HandRank.
-From CKC Require Import Proofs.CardFacts Proofs.SortFacts Proofs.CombFacts Proofs.BitFacts Proofs.FiveFacts
-  Proofs.PokerFacts Proofs.RankedFacts Proofs.ShapeFacts Proofs.ValidFacts Proofs.C01 Proofs.C18 Proofs.BestFacts
-  Proofs.TableFacts.
-From CKC Require Import Gen.Consts Gen.Decks.
+From CKC Require Import Proofs.CombFacts Proofs.FiveFacts Proofs.HandFacts Proofs.C01 Proofs.TableFacts Proofs.TablesComplete.
 Open Scope N_scope.
 
-(* a table that lists every 5-of-n slot combination (as a set) *)
-Definition complete_table (n : nat) (perms : list (list N)) : Prop :=
-  forall r, In r perms <-> In r (combs (N_range (N.of_nat n)) 5).
-
-Lemma sel_in_combs n perms (ws : list N) p :
-  complete_table n perms -> length ws = n -> In p perms -> In (sel ws p) (combs ws 5).
-Proof.
-  intros PC HL Hp. rewrite combs_select. unfold lenN. rewrite HL.
-  apply (in_map (map (fun i => nthN ws i 0))). apply PC, Hp.
-Qed.
-
-Lemma combs_from_perm n perms (ws : list N) c :
-  complete_table n perms -> length ws = n -> In c (combs ws 5) -> exists p, In p perms /\ c = sel ws p.
-Proof.
-  intros PC HL Hc. rewrite combs_select in Hc. unfold lenN in Hc. rewrite HL in Hc.
-  apply in_map_iff in Hc. destruct Hc as [p [<- Hp]]. exists p. split; [apply PC, Hp | reflexivity].
-Qed.
-
-(* the current tables list every slot combination (C18, re-proved from the regenerated data) *)
-Lemma six_complete : complete_table 6 SIX_PERMUTATIONS.
-Proof. destruct slot_tables_ok as (_ & _ & (_ & H & _) & _). exact H. Qed.
-Lemma seven_complete : complete_table 7 SEVEN_PERMUTATIONS.
-Proof. destruct slot_tables_ok as (_ & _ & _ & _ & (_ & H & _) & _). exact H. Qed.
-
 (* the rule-based value of n cards: the strongest (smallest) ordinal among all five-card sub-hands *)
-Definition best_value (ws : list N) : N := min_list (map value5 (combs ws 5)).
+Definition best_value5 (ws : list N) : N := best_value value5 ws.
 
-(* ---- C02 / C03 for Six and Seven --------------------------------------------------------------- *)
-Lemma hrvh_n chk n ws :
+Lemma value_n_spec chk n ws :
   (n = 6 \/ n = 7)%nat -> HandN n ws ->
-  exists v h,
-    hrvh chk ws = Ok (v, sort_desc h) /\ In h (combs ws 5) /\ v = value5 h /\
-    (forall c, In c (combs ws 5) -> v <= value5 c).
-Proof.
-  intros Hn H. pose proof H as (HL & _).
-  destruct (hrvh_table chk n ws Hn H) as (perms & p & T & Hp & Hr & Hmin & _ & Eperms).
-  assert (PC : complete_table n perms).
-  { rewrite Eperms. destruct Hn as [->| ->]; [exact six_complete | exact seven_complete]. }
-  exists (value5 (sel ws p)), (sel ws p). repeat split.
-  - exact Hr.
-  - eapply sel_in_combs; eauto.
-  - intros c Hc. destruct (combs_from_perm n perms ws c PC HL Hc) as [q [Hq ->]]. apply Hmin, Hq.
-Qed.
-
-Lemma value_n_ok chk n ws :
-  (n = 6 \/ n = 7)%nat -> HandN n ws ->
-  let v := best_value ws in
+  let v := best_value5 ws in
   hand_rank_value chk ws = Ok v /\
   rmap (fun x => hr_value (hr_from x)) (hand_rank_value chk ws) = Ok v /\
   rmap fst (hrvh chk ws) = Ok v /\
   hand_rank_value_validated chk ws = Ok v /\
   1 <= v <= 7462.
 Proof.
-  intros Hn H v. destruct (hrvh_n chk n ws Hn H) as (v' & h & Hr & Hin & Hv & Hmin).
-  assert (E : v' = v).
-  { unfold v, best_value. apply min_list_char.
-    - rewrite Hv. apply in_map, Hin.
-    - intros y Hy. apply in_map_iff in Hy. destruct Hy as [c [<- Hc]]. apply Hmin, Hc. }
-  rewrite E in Hr.
-  assert (E1 : hand_rank_value chk ws = Ok v) by (unfold hand_rank_value, rmap; rewrite Hr; reflexivity).
-  pose proof H as (HL & HR & HN).
-  repeat split.
-  - exact E1.
-  - rewrite E1. reflexivity.
-  - rewrite Hr. reflexivity.
-  - unfold hand_rank_value_validated. rewrite (proj2 (is_valid_spec ws) (conj HR HN)). exact E1.
-  - rewrite <- E, Hv. apply In_combs in Hin. destruct Hin as [Hs Hl].
-    apply (value5_range h (sub_hand _ _ _ H Hs Hl)).
-  - rewrite <- E, Hv. apply In_combs in Hin. destruct Hin as [Hs Hl].
-    apply (value5_range h (sub_hand _ _ _ H Hs Hl)).
+  intros Hn H v.
+  destruct (value_n_ok chk value5 n ws (value5_ranks chk) tables_complete_now ltac:(lia) H) as (A & B & C & D & _).
+  destruct (attained_ok value5 n ws ltac:(lia) H) as (s & _ & _ & H5 & E).
+  repeat split; try assumption; unfold v, best_value5; rewrite E; apply (value5_range s H5).
 Qed.
 
-(* any five distinct cards taken from the hand, in any order, are no stronger than the hand *)
-Lemma lower_ok n ws s :
-  HandN n ws -> length s = 5%nat -> NoDup s -> incl s ws -> best_value ws <= value5 s.
-Proof.
-  intros H HL HN Hincl. pose proof H as (_ & HR & HNw).
-  destruct (subset_in_combs s ws 5 HN HNw Hincl HL) as [c [Hc HP]].
-  assert (HS : Hand5 s).
-  { repeat split; [exact HL| |exact HN]. apply Forall_forall. intros x Hx. rewrite Forall_forall in HR.
-    apply HR, Hincl, Hx. }
-  rewrite (value5_perm s c HS HP). unfold best_value.
-  destruct (map value5 (combs ws 5)) as [|x r] eqn:E.
-  - apply (in_map value5) in Hc. rewrite E in Hc. destruct Hc.
-  - cbn [min_list]. destruct (fold_min_le r x) as [H1 H2].
-    apply (in_map value5) in Hc. rewrite E in Hc. destruct Hc as [<-|Hc]; [exact H1 | apply H2, Hc].
-Qed.
+Lemma lower_spec n ws s :
+  HandN n ws -> length s = 5%nat -> NoDup s -> incl s ws -> best_value5 ws <= value5 s.
+Proof. apply (lower_ok false value5 n ws s (value5_ranks false)). Qed.
 
-Lemma attained_ok n ws :
-  (5 <= n)%nat -> HandN n ws -> exists s, Subseq s ws /\ length s = 5%nat /\ Hand5 s /\ best_value ws = value5 s.
-Proof.
-  intros Hn H. pose proof H as (HL & _ & _). unfold best_value.
-  assert (Hne : combs ws 5 <> []).
-  { intros E. assert (Hin : In (firstn 5 ws) (combs ws 5)).
-    { apply In_combs. split; [|rewrite firstn_length; lia].
-      rewrite <- (firstn_skipn 5 ws) at 2. clear. generalize (skipn 5 ws). generalize (firstn 5 ws).
-      intros a b. induction a as [|x a IH]; cbn [app]; [apply Subseq_nil_l | apply Subseq_take, IH]. }
-    rewrite E in Hin. destruct Hin. }
-  destruct (combs ws 5) as [|c0 cs] eqn:E; [congruence|]. cbn [map min_list].
-  destruct (fold_min_in (map value5 cs) (value5 c0)) as [Hm|Hm].
-  - exists c0. assert (Hc : In c0 (combs ws 5)) by (rewrite E; left; reflexivity).
-    apply In_combs in Hc. destruct Hc as [Hs Hl]. repeat split; try assumption; try (eapply sub_hand; eauto).
-  - apply in_map_iff in Hm. destruct Hm as [c [Hv Hc]]. exists c.
-    assert (Hc' : In c (combs ws 5)) by (rewrite E; right; exact Hc).
-    apply In_combs in Hc'. destruct Hc' as [Hs Hl]. repeat split; try assumption; try (eapply sub_hand; eauto).
-    symmetry. exact Hv.
-Qed.
-
-(* ---- C09: more cards never weaken a hand ------------------------------------------------------- *)
-Lemma Subseq_trans {A} (a b c : list A) : Subseq a b -> Subseq b c -> Subseq a c.
-Proof.
-  intros H1 H2. revert a H1. induction H2; intros a H1.
-  - exact H1.
-  - apply Subseq_skip, IHSubseq, H1.
-  - inversion H1; subst.
-    + apply Subseq_skip, IHSubseq; assumption.
-    + apply Subseq_take, IHSubseq; assumption.
-Qed.
-
-Lemma Subseq_refl {A} (l : list A) : Subseq l l.
-Proof. induction l as [|a l IH]; [constructor | apply Subseq_take, IH]. Qed.
-
-Lemma Subseq_extend {A} (t l : list A) :
-  Subseq t l -> (length t < length l)%nat -> exists s, Subseq t s /\ Subseq s l /\ length s = S (length t).
-Proof.
-  induction 1 as [|x s l H IH|x s l H IH]; cbn [length]; intros HL.
-  - lia.
-  - exists (x :: s). repeat split.
-    + apply Subseq_skip, Subseq_refl.
-    + apply Subseq_take, H.
-  - destruct IH as [s' (A1 & B1 & C1)]; [lia|]. exists (x :: s'). repeat split.
-    + apply Subseq_take, A1.
-    + apply Subseq_take, B1.
-    + cbn [length]. lia.
-Qed.
-
-Lemma sub_handN n m ws s : HandN n ws -> Subseq s ws -> length s = m -> HandN m s.
-Proof.
-  intros (HL & HR & HN) HS HC. repeat split; [exact HC| |eapply Subseq_NoDup; eauto].
-  apply Forall_forall. intros x Hx. rewrite Forall_forall in HR. apply HR. eapply Subseq_incl; eauto.
-Qed.
-
-(* sub-hands given as ANY duplicate-free selection in ANY order *)
-Lemma monotone_ok n m ws s :
-  (5 <= m)%nat -> HandN n ws -> length s = m -> NoDup s -> incl s ws -> best_value ws <= best_value s.
-Proof.
-  intros Hm H HL HN Hincl. pose proof H as (_ & HR & _).
-  assert (HS : HandN m s).
-  { repeat split; try assumption. apply Forall_forall. intros x Hx. rewrite Forall_forall in HR.
-    apply HR, Hincl, Hx. }
-  destruct (attained_ok m s Hm HS) as (t & Ht & Hl & H5 & ->).
-  apply (lower_ok n ws t H Hl (proj2 (proj2 H5))).
-  intros x Hx. apply Hincl. eapply Subseq_incl; eauto.
-Qed.
-
-Lemma min_of_sub n ws :
-  (5 < n)%nat -> HandN n ws ->
-  exists s, Subseq s ws /\ length s = pred n /\ best_value s = best_value ws.
-Proof.
-  intros Hn H. pose proof H as (HL & _).
-  destruct (attained_ok n ws ltac:(lia) H) as (t & Ht & Hl & H5 & Hv).
-  (* grow t inside ws up to n-1 cards *)
-  assert (G : forall k, (5 <= k <= n)%nat -> exists s, Subseq t s /\ Subseq s ws /\ length s = k).
-  { induction k as [|k IHk]; intros Hk; [lia|].
-    destruct (Nat.eq_dec (S k) 5) as [E|E].
-    - exists t. repeat split; [apply Subseq_refl | exact Ht | lia].
-    - destruct IHk as [s (A & B & C)]; [lia|].
-      destruct (Subseq_extend s ws B ltac:(lia)) as [s' (A' & B' & C')].
-      exists s'. repeat split; [eapply Subseq_trans; eauto | exact B' | lia]. }
-  destruct (G (pred n) ltac:(lia)) as [s (A & B & C)].
-  exists s. repeat split; [exact B | exact C|].
-  pose proof (sub_handN n (pred n) ws s H B C) as HS.
-  apply N.le_antisymm.
-  - rewrite Hv. apply (lower_ok (pred n) s t HS Hl (proj2 (proj2 H5))). eapply Subseq_incl; eauto.
-  - apply (monotone_ok n (pred n) ws s ltac:(lia) H C (proj2 (proj2 HS))). eapply Subseq_incl; eauto.
-Qed.
-
-Lemma chain_ok : forall chk ws7 s6 s5,
-  HandN 7 ws7 -> length s6 = 6%nat -> NoDup s6 -> incl s6 ws7 ->
-  length s5 = 5%nat -> NoDup s5 -> incl s5 s6 ->
-  exists v7 v6 v5,
-    hand_rank_value chk ws7 = Ok v7 /\ hand_rank_value chk s6 = Ok v6 /\ hand_rank_value chk s5 = Ok v5 /\
-    v7 <= v6 /\ v6 <= v5.
-Proof.
-  intros chk ws7 s6 s5 H7 L6 N6 I6 L5 N5 I5.
-  assert (H6 : HandN 6 s6).
-  { destruct H7 as (_ & R & _). repeat split; try assumption. apply Forall_forall. intros x Hx.
-    rewrite Forall_forall in R. apply R, I6, Hx. }
-  assert (H5 : Hand5 s5).
-  { destruct H6 as (_ & R & _). repeat split; try assumption. apply Forall_forall. intros x Hx.
-    rewrite Forall_forall in R. apply R, I5, Hx. }
-  exists (best_value ws7), (best_value s6), (value5 s5). repeat split.
-  - exact (proj1 (value_n_ok chk 7 ws7 (or_intror eq_refl) H7)).
-  - exact (proj1 (value_n_ok chk 6 s6 (or_introl eq_refl) H6)).
-  - exact (proj1 (value_ok chk s5 H5)).
-  - exact (monotone_ok 7 6 ws7 s6 ltac:(repeat constructor) H7 L6 N6 I6).
-  - exact (lower_ok 6 s6 s5 H6 L5 N5 I5).
-Qed.
+Lemma attained_spec n ws :
+  (5 <= n)%nat -> HandN n ws -> exists s, Subseq s ws /\ length s = 5%nat /\ Hand5 s /\ best_value5 ws = value5 s.
+Proof. apply (attained_ok value5). Qed.
